@@ -100,6 +100,27 @@ impl<'a> RunLengthIterator<'a> {
     @@RunLengthIterator::next@@
 }
 
+// ---- signed wrapper: zig-zag through the same encoder (bodies of the two bit tricks proved inverse by Kani, assumed here) ----
+pub uninterp spec fn zz(v: i64) -> u64;
+pub uninterp spec fn unzz(u: u64) -> i64;
+#[verifier::external_body]
+pub proof fn axiom_zigzag_inverse() ensures forall|v: i64| unzz(#[trigger] zz(v)) == v { }
+@@zigzag_encode@@
+@@zigzag_decode@@
+@@SignedRunLengthEncoding@@
+impl SignedRunLengthEncoding {
+    @@SignedRunLengthEncoding::encode@@
+    @@SignedRunLengthEncoding::decode@@
+}
+fn roundtrip_signed_witness(values: &[i64]) -> (out: Vec<i64>)
+    ensures out@ == values@
+{
+    let e = SignedRunLengthEncoding::encode(values);
+    let d = e.decode();
+    proof { axiom_zigzag_inverse(); assert(d@ =~= values@); }
+    d
+}
+
 // C15 round trip, derived from the two contracts alone (caller sees only callee contracts).
 fn roundtrip_witness(values: &[u64]) -> (out: Vec<u64>)
     ensures out@ == values@
@@ -198,6 +219,30 @@ def build(repo):
     L.after('''proof {
     assert(self.runs@.take(self.runs@.len() as int) =~= self.runs@);
 }''')
+
+    # ---- SignedRunLengthEncoding (rules R17 / R19) --------------------------------------------------------
+    ze = u.free_fn(SRC, 'zigzag_encode').D1().ret('r')
+    ze.sig_attr('#[verifier::external_body]')
+    ze.ensures('zz', 'r == zz(n)')
+    zd = u.free_fn(SRC, 'zigzag_decode').D1().ret('r')
+    zd.sig_attr('#[verifier::external_body]')
+    zd.ensures('unzz', 'r == unzz(n)')
+    u.trust('external_body zigzag_encode', 'signed-shift bit trick; proved inverse to zigzag_decode for all 2^64 inputs by Kani unit codec_kani (runlength::verif_rle::zigzag_*)')
+    u.trust('external_body zigzag_decode', 'as above')
+    u.trust('external_body axiom_zigzag_inverse', 'the statement Kani proves for the real pair')
+    u.item(SRC, 'struct', 'SignedRunLengthEncoding').D1(keep_derive=set()).V1()
+    f = u.method(SRC, 'SignedRunLengthEncoding', 'encode').D1().R17('unsigned').ret('r')
+    f.ensures('inner', 'expand(r.inner.runs@) == Seq::new(values@.len(), |i: int| zz(values@[i])) && r.inner.wf()')
+    L = f.loop(0).kind('for')
+    L.invariants(('prefix', 'unsigned@.len() == i__ && forall|k: int| 0 <= k < i__ ==> #[trigger] unsigned@[k] == zz(values@[k])'),)
+    L.after('proof { assert(unsigned@ =~= Seq::new(values@.len(), |i: int| zz(values@[i]))); }')
+    f = u.method(SRC, 'SignedRunLengthEncoding', 'decode').D1().R19('i64').ret('r')
+    f.ensures('unzigzag', 'r@ == Seq::new(expand(self.inner.runs@).len(), |i: int| unzz(expand(self.inner.runs@)[i]))')
+    L = f.loop(0).kind('for')
+    L.invariants(('src', 'src__@ == expand(self.inner.runs@)'),
+                 ('prefix', 'out__@.len() == i__ && forall|k: int| 0 <= k < i__ ==> #[trigger] out__@[k] == unzz(src__@[k])'))
+    L.after('proof { assert(out__@ =~= Seq::new(expand(self.inner.runs@).len(), |i: int| unzz(expand(self.inner.runs@)[i]))); }')
+
     # ---- RunLengthIterator::next (trait method extracted as an inherent method: rule M2) ----------
     u.item(SRC, 'struct', 'RunLengthIterator').D1(keep_derive=set()).V1()
     f = u.method(SRC, 'RunLengthIterator', 'next', trait='Iterator').D1().ret('r')
@@ -223,6 +268,6 @@ def build(repo):
     L.after('''proof {
     assert(self.runs@.take(self.runs@.len() as int) =~= self.runs@);
 }''')
-    u.not_covered += ['RunLengthEncoding::{from_runs (iterator sum), to_bytes, from_bytes (io::Cursor)}', 'SignedRunLengthEncoding (iterator map/collect)',
+    u.not_covered += ['RunLengthEncoding::{from_runs (iterator sum), to_bytes, from_bytes (io::Cursor)}', 
                       'RunLengthIterator::size_hint', 'RunLengthAnalyzer (f64)']
     return u
